@@ -6,6 +6,8 @@ Extraction "c18_model.ml"
   sc_uint128_add sc_uint128_sub sc_uint128_bitwise_neg sc_uint128_bitwise_or sc_uint128_bitwise_and
   sc_uint128_shift_right sc_uint128_shift_left sc_uint128_add_inplace sc_uint128_sub_inplace
   sc_uint128_bitwise_or_inplace sc_uint128_bitwise_and_inplace
+  sc_uint128_add_inplace_aliased sc_uint128_sub_inplace_aliased
+  sc_uint128_bitwise_or_inplace_aliased sc_uint128_bitwise_and_inplace_aliased
   sc_search_bias sc_search_lower_bound64 sc_bsearch_range
   sc_intpow sc_intpow64 sc_intpow64u
   w_sc_log2_8 w_sc_log2_16 w_sc_log2_32 w_sc_log2_32u w_sc_log2_64 w_sc_log2_64u w_sc_roundup2_32 w_sc_roundup2_64
